@@ -57,6 +57,10 @@ Proof. revert k; induction p as [|x r IH]; intros k Hnd Hk; simpl in Hk; [lia|].
 Lemma Forall2_len {A B} (R : A -> B -> Prop) l1 l2 : Forall2 R l1 l2 -> length l1 = length l2.
 Proof. induction 1; simpl; auto. Qed.
 
+Lemma nth_map_seq {A} K (f : nat -> A) j d : j < K -> nth j (map f (seq 0 K)) d = f j.
+Proof. intros H. rewrite (nth_indep _ d (f 0)) by (rewrite map_length, seq_length; auto).
+  rewrite (map_nth f). rewrite seq_nth by auto. reflexivity. Qed.
+
 Section AlignersP.
 Context {T : Type} (P : ops T).
 Hypothesis lt_irrefl : forall x, oltb P x x = false.
@@ -245,14 +249,15 @@ Proof. intros st0 H. unfold dhtv, dhtv_run. fold st0.
   assert (E: fold_left (fun st sg => let '(n, s, e) := sg in dhtv_iter P tiny m g K Tn n s e st) pl st0 = st0).
   { induction pl as [|[[n s] e] r IH]; simpl; auto.
     assert (E1: dhtv_iter P tiny m g K Tn n s e st0 = st0).
-    { destruct n as [|n]; simpl; auto. rewrite dhtv_pass_fix; auto.
-      intros idx Hi Hr. apply (H (S n) s e idx); simpl; auto. lia. }
-    rewrite E1. apply IH. intros. eapply H; eauto. simpl; auto. }
+    { destruct n as [|n]; cbn [dhtv_iter]; auto. rewrite dhtv_pass_fix; auto.
+      intros idx Hi Hr. apply (H (S n) s e idx); [left; reflexivity | rewrite <- Hl; exact Hi | exact Hr]. }
+    rewrite E1. apply IH. intros n0 s0 e0 idx Hin Hi Hr.
+    apply (H n0 s0 e0 idx); [right; exact Hin | exact Hi | exact Hr]. }
   rewrite E. unfold st0, dhtv_init. rewrite map_map. reflexivity. Qed.
 
 (* ---- inline EM alignment: one mapping, applied to affiliation and quadratic form alike ---- *)
 Theorem inline_align_same_mapping (calc : list bin -> list (list nat)) aff quad :
-  inline_align P calc aff quad = (apply_bins (calc aff) aff, apply_bins (calc aff) quad).
+  inline_align calc aff quad = (apply_bins (calc aff) aff, apply_bins (calc aff) quad).
 Proof. reflexivity. Qed.
 
 (* ---- integration models: the permutation search returns a permutation that is not worse than
@@ -281,14 +286,18 @@ Definition adj_score (r0 r1 : bin) (i j : nat) : T :=
 Fixpoint adj_dominant (r0 : bin) (rs : list bin) : Prop :=
   match rs with [] => True | r1 :: rs' => dominant K (adj_score r0 r1) /\ adj_dominant r1 rs' end.
 
+Lemma rget_permute p (b : bin) k : k < length p -> rget P (permute [] p b) k = rowfn P (nth (nth k p 0) b []).
+Proof. intros H. unfold rget, rowfn. pose proof (permute_nth (A:=list T) [] p b k H) as E.
+  change (@nth row) with (@nth (list T)). rewrite E. reflexivity. Qed.
+
 Lemma score_bins_permuted p0 p1 r0 r1 :
   is_perm K p0 -> is_perm K p1 ->
   assign P true K (score_bins P tiny m K Tn (permute [] p1 r1) (permute [] p0 r0))
   = assign P true K (mtab K (fun i j => adj_score r0 r1 (nth i p0 0) (nth j p1 0))).
 Proof. intros H0 H1. unfold score_bins. rewrite !assign_mtab_greedy. apply greedy_assign_ext.
-  intros i j Hi Hj. unfold score_fn, adj_score, rget, rowfn.
-  rewrite (permute_nth [] p1 r1 j) by (rewrite (is_perm_length K p1 H1); auto).
-  rewrite (permute_nth [] p0 r0 i) by (rewrite (is_perm_length K p0 H0); auto). reflexivity. Qed.
+  intros i j Hi Hj. unfold score_fn, adj_score.
+  rewrite (rget_permute p1 r1 j) by (rewrite (is_perm_length K p1 H1); auto).
+  rewrite (rget_permute p0 r0 i) by (rewrite (is_perm_length K p0 H0); auto). reflexivity. Qed.
 
 Lemma adjacent_recovered p0 p1 r0 r1 :
   is_perm K p0 -> is_perm K p1 -> dominant K (adj_score r0 r1) ->
@@ -313,19 +322,29 @@ Lemma chain_restores rs : forall ps r0 p0 prev,
           (chain prev (adjacent P tiny m K Tn (permute [] p0 r0) (apply_bins ps rs))) ps.
 Proof. induction rs as [|r1 rs IH]; intros ps r0 p0 prev H0 Hprev Hps Hdom; inversion Hps; subst.
   - simpl. constructor.
-  - rename x into p1, l into ps'. rewrite apply_bins_cons. cbn [adjacent chain]. destruct Hdom as [HD Hdom].
+  - rename x into p1, l into ps'. rewrite (apply_bins_cons (A:=T)). cbn [adjacent chain]. destruct Hdom as [HD Hdom].
     rewrite (adjacent_recovered p0 p1 r0 r1) by auto.
     set (m1 := map (fun i => index_of (nth i p0 0) p1) (seq 0 K)).
     assert (Hcur: permute 0 (permute 0 prev m1) p1 = permute 0 prev p0).
     { unfold permute. rewrite map_map. apply map_ext_in. intros j Hj.
       assert (Hjk: j < K) by (apply (is_perm_bound K prev); auto).
-      unfold m1. rewrite (nth_indep _ 0 ((fun i => index_of (nth i p0 0) p1) 0)) by (rewrite map_length, seq_length; auto).
-      rewrite (map_nth (fun i => index_of (nth i p0 0) p1)). rewrite seq_nth by auto. simpl.
+      unfold m1. rewrite nth_map_seq by auto.
       apply index_of_in. apply (is_perm_in K); auto. apply is_perm_nth; auto. }
     assert (Hm1: is_perm K m1).
     { unfold m1. rewrite <- (adjacent_recovered p0 p1 r0 r1) by auto. apply assign_is_perm. }
     constructor; auto.
     rewrite <- Hcur. apply IH; auto. apply permute_is_perm; auto. Qed.
+
+Lemma apply_bins_compose_const (q : list nat) Ms : forall pl (bins : list bin),
+  Forall2 (fun M p => permute 0 M p = q) Ms pl -> Forall (is_perm K) Ms ->
+  Forall2 (fun p (_ : bin) => is_perm K p) pl bins ->
+  apply_bins Ms (apply_bins pl bins) = map (permute [] q) bins.
+Proof. induction Ms as [|M Ms IH]; intros pl bins HA Hperm Hps; inversion HA; subst; inversion Hps; subst.
+  - reflexivity.
+  - inversion Hperm; subst. rewrite !(apply_bins_cons (A:=T)). cbn [map]. f_equal.
+    + rewrite permute_permute. reflexivity.
+      intros x Hx. rewrite (is_perm_length K y) by auto. apply (is_perm_bound K M); auto.
+    + apply IH; auto. Qed.
 
 (* the mask is the reference with class order ps[f] in bin f; after alignment every bin carries the
    class order of bin 0 *)
@@ -338,18 +357,10 @@ Proof. intros H0 Hps Hdom mask.
   assert (Hid: permute 0 (seq 0 K) p0 = p0).
   { rewrite <- (is_perm_length K p0 H0). apply permute_id. }
   assert (HA: Forall2 (fun M p => permute 0 M p = p0) (greedy_chain P tiny m K Tn mask) (p0 :: ps)).
-  { unfold mask. rewrite apply_bins_cons. unfold greedy_chain. constructor; auto.
+  { unfold mask. rewrite (apply_bins_cons (A:=T)). unfold greedy_chain. constructor; auto.
     pose proof (chain_restores rs ps r0 p0 (seq 0 K) H0 (is_perm_id K) Hps Hdom) as H. rewrite Hid in H. exact H. }
-  split; auto.
-  assert (Hperm: Forall (is_perm K) (greedy_chain P tiny m K Tn mask)) by apply greedy_chain_is_perm.
-  assert (Hps': Forall2 (fun p (_ : bin) => is_perm K p) (p0 :: ps) (r0 :: rs)) by (constructor; auto).
-  unfold mask. clear Hid Hdom mask. revert Hperm Hps'. generalize (r0 :: rs) as bins. revert HA.
-  generalize (p0 :: ps) as pl. generalize (greedy_chain P tiny m K Tn (apply_bins (p0 :: ps) (r0 :: rs))) as Ms.
-  intros Ms pl HA. induction HA as [|M p Ms pl E HA IH]; intros bins Hperm Hps'; inversion Hps'; subst.
-  - reflexivity.
-  - inversion Hperm; subst. rewrite !apply_bins_cons. simpl. f_equal.
-    + rewrite permute_permute. rewrite E. reflexivity.
-      intros x Hx. rewrite (is_perm_length K p) by auto. apply (is_perm_bound K M); auto.
-    + apply IH; auto. Qed.
+  split; auto. unfold mask at 2. apply apply_bins_compose_const; auto.
+  - apply greedy_chain_is_perm.
+  - constructor; auto. Qed.
 End Restore.
 End AlignersP.
